@@ -224,6 +224,171 @@ fn extreme_sizes(ctx: &Ctx, rep: &mut Report) {
     println!("part extreme-sizes: {} cases", n);
 }
 
+fn changes_ok(lines: &[usize], rows: usize) -> Option<String> {
+    if lines.windows(2).any(|w| w[0] >= w[1]) {
+        return Some(format!("Changes.lines is not strictly increasing: {:?}", lines));
+    }
+    if let Some(&m) = lines.last() {
+        if m >= rows {
+            return Some(format!("Changes.lines holds index {} on a screen of {} rows", m, rows));
+        }
+    }
+    None
+}
+
+/// Every height to every height, 1..=200 (thorough 300): the resize as the FIRST call on a
+/// fresh terminal (every row still marked changed), after every row was touched through
+/// feed() (which reports nothing and clears nothing), and after an ordinary call. All
+/// invariants and the shape of Changes.lines after the resize and after one more call.
+fn every_height_pair(ctx: &Ctx, rep: &mut Report) {
+    use super::common::geometry_broken;
+    use rayon::prelude::*;
+    let n = ctx.tier.pick(200usize, 300usize);
+    let pairs: Vec<(usize, usize)> = (1..=n).flat_map(|a| (1..=n).map(move |b| (a, b))).collect();
+    let bad: Vec<String> = pairs
+        .par_iter()
+        .filter_map(|&(a, b)| {
+            let r = crate::engine::guarded(|| {
+                for variant in 0..3 {
+                    let mut vt = build_vt(2, a, Some(0));
+                    match variant {
+                        1 => {
+                            for r in 0..a {
+                                for ch in format!("\x1b[{};1Hx", r + 1).chars() {
+                                    vt.feed(ch);
+                                }
+                            }
+                        }
+                        2 => {
+                            let _ = vt.feed_str("q");
+                        }
+                        _ => {}
+                    }
+                    let ch = vt.resize(2, b);
+                    let lines = ch.lines.clone();
+                    drop(ch);
+                    if let Some(w) = changes_ok(&lines, b).or_else(|| geometry_broken(&vt, (2, b))) {
+                        return Some(format!("variant {}: after the resize: {}", variant, w));
+                    }
+                    let ch = vt.feed_str("\x1b[Hz");
+                    let lines = ch.lines.clone();
+                    drop(ch);
+                    if let Some(w) = changes_ok(&lines, b).or_else(|| geometry_broken(&vt, (2, b))) {
+                        return Some(format!("variant {}: after the next call: {}", variant, w));
+                    }
+                }
+                None
+            });
+            match r {
+                Ok(None) => None,
+                Ok(Some(d)) => Some(format!("2x{} resized to 2x{}: {}", a, b, d)),
+                Err(p) => Some(format!("2x{} resized to 2x{}: panic: {}", a, b, p)),
+            }
+        })
+        .collect();
+    let runs = pairs.len() as u64 * 3;
+    rep.evaluations += runs * 2;
+    rep.transitions += runs * 2;
+    rep.parts.push(serde_json::json!({"part":"every-height-pair","heights_up_to":n,"pairs":pairs.len(),"runs":runs,"violating":bad.len()}));
+    println!("part every-height-pair: {} pairs x 3 variants, {} violating", pairs.len(), bad.len());
+    if let Some(d) = bad.first() {
+        emit_violation(ctx, rep, "C02", serde_json::json!({"part":"every-height-pair","oracle":"geometry","observed":d}));
+        rep.violations += bad.len() as u64 - 1;
+    }
+}
+
+/// Growing (and reshaping) a screen whose scrollback is at every fill level around the
+/// limit - below it, in the slack between the limit and limit + limit/10, and (through
+/// feed(), which never trims, or a scroll followed by a screen switch in the same call)
+/// beyond it - by every amount around the limit.
+fn resize_at_every_fill_level(ctx: &Ctx, rep: &mut Report) {
+    use super::common::geometry_broken;
+    use rayon::prelude::*;
+    let limits: Vec<usize> = ctx.tier.pick(vec![0, 1, 10, 11, 20, 35], vec![0, 1, 2, 9, 10, 11, 19, 20, 21, 25, 35, 100]);
+    let mut cases: Vec<(usize, usize, usize)> = vec![];
+    for &l in &limits {
+        for fill in 0..=(l + l / 10 + 4) {
+            for how in 0..4 {
+                cases.push((l, fill, how));
+            }
+        }
+    }
+    let bad: Vec<String> = cases
+        .par_iter()
+        .filter_map(|&(l, fill, how)| {
+            let r = crate::engine::guarded(|| {
+                let (cols, rows) = (4usize, 3usize);
+                let hard = l + l / 10;
+                let mut targets: Vec<(usize, usize)> = vec![];
+                for g in [1usize, 2, l.saturating_sub(1), l, l + 1, hard, hard + 1, hard + 5, 3 * hard + 7] {
+                    targets.push((cols, rows + g));
+                    targets.push((cols + 3, rows + g));
+                    targets.push((2, rows + g));
+                }
+                targets.push((cols, 1));
+                targets.push((9, rows));
+                targets.push((1, rows));
+                targets.sort();
+                targets.dedup();
+                for (tc, tr) in targets {
+                    let mut vt = build_vt(cols, rows, Some(l));
+                    let _ = vt.feed_str("\x1b[3;1H");
+                    match how {
+                        0 => {
+                            for i in 0..fill {
+                                let _ = vt.feed_str(&format!("{}\r\n", i % 10));
+                            }
+                        }
+                        1 => {
+                            for i in 0..fill {
+                                for ch in format!("{}\r\n", i % 10).chars() {
+                                    vt.feed(ch);
+                                }
+                            }
+                        }
+                        2 => {
+                            let body: String = (0..fill).map(|i| format!("{}\r\n", i % 10)).collect();
+                            let _ = vt.feed_str(&format!("{}\x1b[?1049h", body));
+                        }
+                        _ => {
+                            let body: String = (0..fill).map(|i| format!("{}abcde\r\n", i % 10)).collect();
+                            let _ = vt.feed_str(&body);
+                        }
+                    }
+                    let ch = vt.resize(tc, tr);
+                    let lines = ch.lines.clone();
+                    drop(ch);
+                    if let Some(w) = changes_ok(&lines, tr).or_else(|| geometry_broken(&vt, (tc, tr))) {
+                        return Some(format!("resized to {}x{}: {}", tc, tr, w));
+                    }
+                    let ch = vt.feed_str("\x1b[?1049lz\r\n");
+                    let lines = ch.lines.clone();
+                    drop(ch);
+                    if let Some(w) = changes_ok(&lines, tr).or_else(|| geometry_broken(&vt, (tc, tr))) {
+                        return Some(format!("resized to {}x{}, then one more line: {}", tc, tr, w));
+                    }
+                }
+                None
+            });
+            let hows = ["one call per line", "feed() per character", "all lines and ?1049h in one call", "wrapping lines in one call"];
+            match r {
+                Ok(None) => None,
+                Ok(Some(d)) => Some(format!("4x3, limit {}, {} lines scrolled ({}): {}", l, fill, hows[how], d)),
+                Err(p) => Some(format!("4x3, limit {}, {} lines scrolled ({}): panic: {}", l, fill, hows[how], p)),
+            }
+        })
+        .collect();
+    let n = cases.len() as u64;
+    rep.evaluations += n * 30;
+    rep.transitions += n * 30;
+    rep.parts.push(serde_json::json!({"part":"resize-at-every-fill-level","limits":limits,"cases":n,"violating":bad.len()}));
+    println!("part resize-at-every-fill-level: {} (limit, fill, how) cases x ~30 targets, {} violating", n, bad.len());
+    if let Some(d) = bad.first() {
+        emit_violation(ctx, rep, "C02", serde_json::json!({"part":"resize-at-every-fill-level","oracle":"geometry","observed":d}));
+        rep.violations += bad.len() as u64 - 1;
+    }
+}
+
 pub fn run(ctx: &Ctx) -> Report {
     let mut rep = Report::new();
     let (main, deep) = parts!(ctx.tier);
@@ -232,6 +397,8 @@ pub fn run(ctx: &Ctx) -> Report {
     run_part(ctx, &mut rep, &core_part(ctx.tier));
     run_part(ctx, &mut rep, &tabs_part(ctx.tier));
     extreme_sizes(ctx, &mut rep);
+    every_height_pair(ctx, &mut rep);
+    resize_at_every_fill_level(ctx, &mut rep);
     rep.rule = "BFS over op histories from power-on, dedup on the Debug fingerprint of the whole Vt; every transition is one public call (feed_str with drained/dropped Changes, feed per char, resize) after which all C02 invariants are evaluated; distinct = distinct implementation states; extreme-sizes: geometries at and beyond the 16-bit boundary through resize() and the builder, invariants after every call".into();
     rep.assumptions = vec![
         "screens limited to the configured tiny sizes and resize targets".into(),
@@ -248,6 +415,13 @@ pub fn replay(ctx: &Ctx, v: &Value) -> bool {
         return rep.violations > 0;
     }
     let tier = if v["tier"] == "thorough" { Tier::Thorough } else { Tier::Quick };
+    if v["part"] == "every-height-pair" || v["part"] == "resize-at-every-fill-level" {
+        let mut rep = Report::new();
+        let c2 = Ctx { id: ctx.id.clone(), tier, seed: 0, start: ctx.start, known: ctx.known.clone(), replay_dir: ctx.replay_dir.clone() };
+        every_height_pair(&c2, &mut rep);
+        resize_at_every_fill_level(&c2, &mut rep);
+        return rep.violations > 0;
+    }
     let (main, deep) = parts!(tier);
     match v["part"].as_str().unwrap_or("") {
         "all-functions" => replay_part(ctx, &main, v),
